@@ -39,6 +39,11 @@ CHECKS = {
    technique="deterministic simulation: full chain + real resolver over simulated network with an adversarial authoritative server and spoofed datagrams; ground truth + provenance marks + dial log as oracle",
    text="Seeded search over unsigned hierarchies in which one zone's legitimately authoritative servers apply subsets of 11 adversarial behaviours (out-of-zone records in every section, CNAME continued out of zone, sideways/upward/self/mixed referrals, loopback or out-of-zone glue) while wrong-ID / wrong-question datagrams are injected ahead of genuine replies; histories alternate trigger questions under that zone with questions for victim names. Victim replies must equal ground truth, attacker-marked data must never be attached to a name outside the zone, no loopback/local dial, no victim question to the attacker's address.",
    note="DNSSEC is off so only bailiwick rules protect the victim. Names inside the adversary's zone are not judged. Adversary and ancestors never share a server (it would then speak with the ancestor's authority)."),
+ "C12": dict(
+   level="exploration", design="§3 C12",
+   technique="deterministic simulation: full chain + real resolver over generated attack topologies; per-question packet counting at the simulated network; metamorphic twin runs (shadow vs off)",
+   text="Seeded search over attack topologies (CNAME chains/cycles across zones, DNAME ping-pong, glueless NS cycles, fan-out and deep referral chains, lame/self-referring servers, many colliding DNSKEYs and RRSIGs, high-iteration NSEC3), budgets from 1 upward, modes off/shadow/enforce, qname minimisation on/off; every question terminates within the query timeout, enforce-mode upstream attempts per question (UDP datagrams + TCP connections, counted to quiescence) never exceed max_outbound_queries, a budget failure is never served to a second client from a cache, and a shadow run equals an off run.",
+   note="Only the outbound budget is visible on the wire; internal sub-query and DNSSEC-operation budgets are not compared. The 'EDE on the over-budget SERVFAIL' clause is recorded as a probe, not asserted, because over-budget cannot be told from a failing last attempt from outside."),
 }
 
 NOT_APPLICABLE = {
